@@ -26,6 +26,7 @@ WORKLOADS: dict[str, list[dict[str, Any]]] = {
     "independent": [{"kind": "leaf", "value": 1}, {"kind": "leaf", "value": 2}, {"kind": "leaf", "value": 3}],
     "parent-child": [{"kind": "single", "value": 1, "children": [{"kind": "leaf", "value": 2}]}],
     "parent-group": [{"kind": "group", "value": 1, "children": [{"kind": "leaf", "value": 2}, {"kind": "leaf", "value": 3}]}],
+    "slow-independent": [{"kind": "leaf", "value": 1, "work": 5}, {"kind": "leaf", "value": 2, "work": 9}, {"kind": "leaf", "value": 3, "work": 13}],
     "retrying": [{"kind": "retry", "value": 1, "fail_times": 2}, {"kind": "leaf", "value": 2}],
 }
 
@@ -69,6 +70,11 @@ def run(ctx: Ctx) -> None:
                     continue
                 refs.append(asdict(tw.TScenario(name=f"{wname}@ref", family=fam, slots=slots, programs=progs,
                                                 policy="rr", max_steps=3000)))
+        # several task threads alive at the stop, other invocation ids (the runner keeps ids in sets and dicts:
+        # their iteration order is part of what a stop does)
+        for useed in (6, 7, 8):
+            refs.append(asdict(tw.TScenario(name="slow-independent@ref", family=fam, slots=3, programs=WORKLOADS["slow-independent"],
+                                            policy="rr", max_steps=3000, uuid_seed=useed)))
     ref_results = tw.run_parallel(refs, chunk=1)
     for r in ref_results:
         if r["outcome"] != "done":
